@@ -171,3 +171,26 @@ def h2(ctx: Ctx) -> None:
     from .c09 import r3 as marker_rule
 
     marker_rule(ctx)
+
+
+@rule("C16.R5", "the rule's targets are exactly the configured markets, and each rule object keeps its own target table and halt records", "T10 provenance + per-instance state", floor=3)
+def r5(ctx: Ctx) -> None:
+    from .events import check_instance_state, check_target_table
+
+    check_target_table(ctx, THR)
+    n = check_instance_state(ctx, THR)
+    ctx.require(n >= 2, f"{THR}: containers changed in place not found (target table and halt records are expected)")
+
+
+@rule("C16.H3", "mechanism shared with C13: fill hooks and market-step-begin hooks reach every hook registered for the occurrence, each filtered on its own", "T6 + T7 (same rule as C13.R2, rows execution/after and market/before)", floor=8)
+def h3(ctx: Ctx) -> None:
+    from .c13 import check_triggers
+
+    check_triggers(ctx, {("market", "before"), ("execution", "after")})
+
+
+@rule("C16.H4", "mechanism shared with C08: after a fill the market price the halt line is compared with is the fill's price (the refresh never skips it)", "T6 decision table (same rule as C08.R2)", floor=1)
+def h4(ctx: Ctx) -> None:
+    from .c08 import r2 as refresh_rule
+
+    refresh_rule(ctx)
